@@ -358,9 +358,10 @@ func updateStatusConditionsFromOwnedObject(
 	if err != nil {
 		return fmt.Errorf("getting status observedGeneration: %w", err)
 	}
+	// status.observedGeneration of the templated object refers to its own generation,
+	// not to the generation of the ObjectTemplate.
 	if ok &&
-		statusObservedGeneration != objectTemplate.
-			ClientObject().GetGeneration() {
+		statusObservedGeneration != existingObj.GetGeneration() {
 		// all .status is outdated
 		return nil
 	}
